@@ -61,6 +61,8 @@ def choose_guarded_canonical(ctx, f, wrap=None):
 
 
 def check(ctx):
+    from .common import shadowing_audit
+    ctx.floor('R18.1', shadowing_audit(ctx, 'R18.1', ('rand::distr', 'ec_core::distributions::', 'std::iter::FromIterator', 'std::iter::IntoIterator', 'std::iter::Iterator')), 8, 'Distribution / collection-trait impls of workspace types (shadowing audit)')
     F = ctx.F
     # ---- R18.1 ---------------------------------------------------------------------
     f = ctx.fn("<ec_core::distributions::collection::Generator<C> as rand::distr::Distribution<std::vec::Vec<T>>>::sample")
